@@ -20,7 +20,7 @@ RULE = ('policy files: every assignment of a body from a 17-entry menu '
         '(absent, !, role:admin) and a colon-less name (absent/present); '
         'tokens: the three sample tokens plus generated project-, domain- '
         'and system-scoped tokens with 0/1/2 roles; is_admin on/off; target '
-        'file none / flat / nested; requested rule none / defined / '
+        'file none / flat / nested / empty / null leaves / a literal dotted key clashing with a nested one (either order); requested rule none / defined / '
         'undefined / colon-less.  shell.tool() is called in-process with '
         'stdout captured; the expected lines come from Enforcer.enforce on '
         'an Enforcer loaded from the same policy file with the credentials '
@@ -89,6 +89,12 @@ TARGETS = {
     # a JSON null leaf (top level and nested): it is a value like any other
     'nullleaf': {'label': None, 'target': {'project': {'id': None}},
                  'project_id': 'p1'},
+    # a literal dotted key next to a nested mapping that flattens to the same
+    # name: the one later in the file is the one the tool keeps
+    'clash-after': {'target': {'project': {'id': 'p2'}},
+                    'target.project.id': 'p1', 'project_id': 'p1'},
+    'clash-before': {'target.project.id': 'p2',
+                     'target': {'project': {'id': 'p1'}}, 'project_id': 'p1'},
 }
 REQUESTS = [None, 'svc:get', 'svc:nope', 'plain']
 
